@@ -31,7 +31,8 @@ func C10_RoundTrip() {
 	cfg := &vHistCfg{name: "C10_RoundTrip", lenVars: 1, lenSet: []int{0, 5}, valVars: 1, caches: []int{0}, fast: []bool{false, true}, thresh: []int{0}, refHash: true}
 	maxH := 2
 	if vTier() == "thorough" {
-		maxH = 3
+		// (height 3 did not finish within 50 minutes once the empty key had been added to the pool)
+		cfg.lenSet = []int{0, 1, 5}
 	}
 	h := vShapeState(cfg, maxH, 1, []int{1})
 	// optional second version: a write, or a commit without writes (root inherited)
